@@ -554,6 +554,243 @@ def r8_opened_is_proved(run):
         raise AnchorError('no file-opening primitive found in %s' % OPEN)
 
 
+# ---------------------------------------------------------------------------
+# R9
+# ---------------------------------------------------------------------------
+
+MTIME_ATTRS = {'st_mtime'}
+# frozen tables, one reason per line (x >= 0: a file's mtime)
+TRUNCATING_CALLS = {
+    'builtins.int': 'int(x) drops the fraction',
+    'math.floor': 'floor(x) drops the fraction',
+    'math.trunc': 'trunc(x) drops the fraction',
+}
+ROUNDING_CALLS = {
+    'builtins.round': 'round(x) goes to the NEAREST second: one second in the future for a fraction >= 0.5',
+    'math.ceil': 'ceil(x) goes to the NEXT second for every non-zero fraction',
+}
+FROM_TS = {'datetime.datetime.fromtimestamp', 'datetime.datetime.utcfromtimestamp'}
+DT_NEUTRAL_METHODS = {'astimezone': 'same instant in another zone (the zone is R7\'s subject)', 'timestamp': 'the same instant as a number'}
+
+
+class _TimeVal:
+    """A value derived from the file's mtime: where it was read from and what
+    was done to its sub-second part ('raw' | 'floor' | 'round' | 'shift')."""
+    __slots__ = ('source', 'frac', 'why', 'node')
+
+    def __init__(self, source, frac='raw', why=None, node=None):
+        self.source, self.frac, self.why, self.node = source, frac, why, node
+
+    def to(self, frac, why, node):
+        # an already integral value is not changed by a later truncation / rounding
+        if self.frac != 'raw':
+            return self
+        return _TimeVal(self.source, frac, why, node)
+
+    def key(self):
+        return (self.source, self.frac)
+
+
+class _MtimeReader:
+    """Reads how an expression of `StaticRoute.__call__` is computed from
+    `<stat>.st_mtime`: through locals (may-reaching definitions), the
+    datetime constructors of FROM_TS, `.replace(microsecond=0)`, the tables
+    above, `x // 1`, and `+`/`-` of a constant (a shifted instant).  Any other
+    construct that touches an mtime-derived value is UnknownIdiom."""
+
+    def __init__(self, p, f: Func):
+        from .c15_helpers import reaching
+        self.p, self.f = p, f
+        self.rd = reaching(p, f)
+        self._active: Set[int] = set()
+
+    def q(self, fexpr):
+        return self.p.resolve_expr(self.f.module, fexpr, self.f)
+
+    def touches(self, e, nid, _seen=None) -> bool:
+        seen = _seen if _seen is not None else set()
+        for x in walk_self(e):
+            if isinstance(x, ast.Attribute) and (x.attr in MTIME_ATTRS or x.attr.startswith('st_mtime')):
+                return True
+            if isinstance(x, ast.Name) and isinstance(x.ctx, ast.Load):
+                for d in self.rd.at(nid, x.id):
+                    if d.idx in seen or d.kind == 'param' or d.value is None:
+                        continue
+                    seen.add(d.idx)
+                    if d.kind in ('assign', 'aug') and self.touches(d.value if d.kind == 'assign' else d.value.value, d.node, seen):
+                        return True
+        return False
+
+    def unknown(self, e, why='is not a construct the rule reads'):
+        return UnknownIdiom('%s: %s, computed from the file\'s mtime, %s' % (self.f.qual, short(e, 90), why))
+
+    def ev(self, e, nid) -> Optional[_TimeVal]:
+        """None: unrelated to the mtime."""
+        if not self.touches(e, nid):
+            return None
+        if isinstance(e, ast.Attribute) and e.attr in MTIME_ATTRS:
+            return _TimeVal(short(e))
+        if isinstance(e, ast.Name):
+            out = None
+            for d in self.rd.at(nid, e.id):
+                if d.kind != 'assign':
+                    if d.kind == 'param':
+                        continue
+                    raise self.unknown(e, 'is bound by %s' % d.kind)
+                if d.idx in self._active:
+                    raise self.unknown(e, 'is defined in terms of itself in a loop')
+                self._active.add(d.idx)
+                try:
+                    v = self.ev(d.value, d.node)
+                finally:
+                    self._active.discard(d.idx)
+                if v is None:
+                    raise self.unknown(e, 'is only sometimes derived from the mtime')
+                if out is not None and out.key() != v.key():
+                    raise self.unknown(e, 'has definitions that treat the sub-second part differently')
+                out = v
+            return out
+        if isinstance(e, ast.BinOp):
+            l, r = self.ev(e.left, nid), self.ev(e.right, nid)
+            if l is not None and r is None:
+                if isinstance(e.op, ast.FloorDiv) and isinstance(e.right, ast.Constant) and e.right.value == 1:
+                    return l.to('floor', 'x // 1 drops the fraction', e)
+                if isinstance(e.op, (ast.Add, ast.Sub)):
+                    c = self.p.fold(self.f.module, e.right, self.f.cls, self.f)
+                    if c is not UNKNOWN and isinstance(c, (int, float)):
+                        if c == 0:
+                            return l
+                        return _TimeVal(l.source, 'shift', 'a constant is added to the timestamp: %s' % short(e), e)
+            raise self.unknown(e)
+        if isinstance(e, ast.Call):
+            if any(isinstance(a, ast.Starred) for a in e.args) or any(k.arg is None for k in e.keywords):
+                raise self.unknown(e, 'uses star-arguments')
+            fn = e.func
+            q = self.q(fn)
+            if q in FROM_TS and e.args:
+                v = self.ev(e.args[0], nid)
+                if v is None or any(self.touches(a, nid) for a in e.args[1:]) or any(self.touches(k.value, nid) for k in e.keywords):
+                    raise self.unknown(e)
+                return v
+            if q in TRUNCATING_CALLS and len(e.args) == 1 and not e.keywords:
+                v = self.ev(e.args[0], nid)
+                if v is None:
+                    raise self.unknown(e)
+                if v.frac == 'shift':
+                    return _TimeVal(v.source, 'round', 'the timestamp is shifted before its fraction is dropped: %s' % short(e), e)
+                return v.to('floor', TRUNCATING_CALLS[q], e)
+            if q in ROUNDING_CALLS and e.args and len(e.args) + len(e.keywords) <= 2:
+                extra = list(e.args[1:]) + [k.value for k in e.keywords]
+                if extra and not (isinstance(extra[0], ast.Constant) and extra[0].value in (None, 0)) or q != 'builtins.round' and extra:
+                    raise self.unknown(e, 'rounds to something else than whole seconds')
+                v = self.ev(e.args[0], nid)
+                if v is None:
+                    raise self.unknown(e)
+                return v.to('round', ROUNDING_CALLS[q], e)
+            if isinstance(fn, ast.Attribute) and q is None:
+                v = self.ev(fn.value, nid)
+                if v is not None:
+                    if any(self.touches(a, nid) for a in e.args) or any(self.touches(k.value, nid) for k in e.keywords):
+                        raise self.unknown(e)
+                    if fn.attr == 'replace' and not e.args:
+                        micro = [k for k in e.keywords if k.arg == 'microsecond']
+                        if any(k.arg in ('year', 'month', 'day', 'hour', 'minute', 'second', 'fold') for k in e.keywords):
+                            raise self.unknown(e, 'replaces a calendar field')
+                        if not micro:
+                            return v
+                        if isinstance(micro[0].value, ast.Constant) and micro[0].value.value == 0:
+                            return v.to('floor', '.replace(microsecond=0) drops the fraction', e)
+                        raise self.unknown(e, 'sets the microsecond to something else than 0')
+                    if fn.attr in DT_NEUTRAL_METHODS and not e.keywords and len(e.args) <= 1:
+                        return v
+            raise self.unknown(e)
+        if isinstance(e, ast.IfExp):
+            a, b = self.ev(e.body, nid), self.ev(e.orelse, nid)
+            if a is None or b is None or a.key() != b.key() or self.touches(e.test, nid):
+                raise self.unknown(e)
+            return a
+        raise self.unknown(e)
+
+
+def r9_validator_whole_seconds(run):
+    """The instant that StaticRoute.__call__ emits as Last-Modified and the one
+    it compares with If-Modified-Since are the file's mtime TRUNCATED to whole
+    seconds (`.replace(microsecond=0)`, int / math.floor / math.trunc, `// 1`),
+    both read from the same stat result.  An HTTP date has no sub-second part:
+    a client echoes floor(mtime), so an untruncated value makes the file look
+    newer than its own validator, and a rounded one (round, math.ceil, + 0.5)
+    names a second in the future of the file.
+    W: mtime = 1736617934.75: Last-Modified says ...:15 and
+    If-Modified-Since: <...:14> (what any other cache derived from the same
+    file) gets 200 with the full body instead of 304."""
+    p = run.project
+    f = p.func(CALL)
+    cfg = cfg_of(f, p)
+    run.use_cfg(cfg)
+    params = f.params()
+    if len(params) < 3:
+        raise AnchorError('StaticRoute.__call__ signature')
+    req, resp = params[1], params[2]
+    rd = _MtimeReader(p, f)
+    rw = ('a file with mtime fraction >= 0.5 s: Last-Modified names the next second, and If-Modified-Since: floor(mtime) '
+          'is answered 200 with the body instead of 304')
+
+    def judge(tv: Optional[_TimeVal], what, node_ast, where_node):
+        if tv is None:
+            raise UnknownIdiom('%s: %s is not computed from the file\'s st_mtime' % (CALL, short(node_ast, 90)))
+        wit = ['read from %s' % tv.source] + (['%s: %s' % (short(tv.node, 80), tv.why)] if tv.node is not None else ['the sub-second part is kept'])
+        run.check(tv.frac == 'floor', what, f, tv.node if (tv.node is not None and tv.frac != 'floor') else node_ast, where=f.loc(where_node),
+                  witness=wit, runtime_witness=rw)
+
+    # (a) the emitted validator
+    stores = [n for n in cfg.live_nodes() if n.kind == 'stmt' and isinstance(n.ast, ast.Assign)
+              and any(dotted(t) == resp + '.last_modified' for t in n.ast.targets)]
+    if not stores:
+        raise AnchorError('%s never stores %s.last_modified' % (CALL, resp))
+    emitted = []
+    for n in stores:
+        tv = rd.ev(n.ast.value, n.id)
+        judge(tv, 'Last-Modified is the file\'s mtime truncated (not rounded, not raw) to whole seconds', n.ast, n.ast)
+        emitted.append(tv)
+
+    # (b) the compared instant
+    def is_ims(e, nid, seen=()):
+        if isinstance(e, ast.Attribute) and e.attr == 'if_modified_since' and isinstance(e.value, ast.Name) and e.value.id == req:
+            return True
+        if isinstance(e, ast.Call) and isinstance(e.func, ast.Attribute) and e.func.attr in DT_NEUTRAL_METHODS and not e.keywords:
+            return is_ims(e.func.value, nid, seen)
+        if isinstance(e, ast.Name):
+            ds = [d for d in rd.rd.at(nid, e.id) if d.idx not in seen]
+            return bool(ds) and all(d.kind == 'assign' and is_ims(d.value, d.node, tuple(seen) + (d.idx,)) for d in ds)
+        return False
+
+    n_cmp = 0
+    for n in cfg.live_nodes():
+        if n.kind != 'test':
+            continue
+        for c in walk_self(n.ast):
+            if not (isinstance(c, ast.Compare) and len(c.ops) == 1):
+                continue
+            a, b = c.left, c.comparators[0]
+            sides = [(a, b), (b, a)]
+            for (x, y) in sides:
+                if not is_ims(x, n.id):
+                    continue
+                if isinstance(y, ast.Constant) and y.value is None:
+                    break
+                if not isinstance(c.ops[0], (ast.Lt, ast.LtE, ast.Gt, ast.GtE, ast.Eq, ast.NotEq)):
+                    raise UnknownIdiom('%s: If-Modified-Since is used in %s' % (CALL, short(c)))
+                tv = rd.ev(y, n.id)
+                n_cmp += 1
+                judge(tv, 'the instant compared with If-Modified-Since is the file\'s mtime truncated (not rounded, not raw) to whole seconds', c, c)
+                run.check(any(tv.source == e.source for e in emitted), 'the instant compared with If-Modified-Since is read from the same stat result as the '
+                          'emitted Last-Modified', f, '%s [source]' % short(c), where=f.loc(c), witness=['compared: %s' % tv.source] + ['emitted: %s' % e.source for e in emitted],
+                          runtime_witness='the 304 decision is taken for another file\'s time than the Last-Modified handed out')
+                break
+    if not n_cmp:
+        raise AnchorError('%s: no comparison of the file time with %s.if_modified_since' % (CALL, req))
+
+
 def check(run):
     run.assume('POSIX path semantics: os.path.sep == "/"; os.path.normpath leaves ".." only as leading components; '
                'os.path.join(D, x) == D + "/" + x for relative x (trusted base of the containment lemma)')
@@ -575,3 +812,4 @@ def check(run):
     run.rule('R7', _c09.localtime_sweep, 'HTTP dates are read and written as UTC, never through the process-local zone (shared with C09 R4)', floor=1)
     run.rule('R6', _c02.r7_static_prefix, 'static route matching uses only the normalised prefix (shared with C02 R7)', floor=1)
     run.rule('R8', r8_opened_is_proved, 'the string opened inside _open_file is its parameter unchanged (the value the containment lemma was proved for)', floor=1)
+    run.rule('R9', r9_validator_whole_seconds, 'Last-Modified and the instant compared with If-Modified-Since are the mtime truncated to whole seconds', floor=3)
